@@ -4,6 +4,9 @@
 #define TETL_ALGORITHM_UNIQUE_COPY_HPP
 
 #include <etl/_functional/equal_to.hpp>
+#include <etl/_iterator/iterator_traits.hpp>
+#include <etl/_iterator/tags.hpp>
+#include <etl/_type_traits/is_base_of.hpp>
 
 namespace etl {
 
@@ -19,19 +22,40 @@ namespace etl {
 template <typename InputIt, typename OutputIt, typename Predicate>
 constexpr auto unique_copy(InputIt first, InputIt last, OutputIt destination, Predicate pred) -> OutputIt
 {
-    if (first != last) {
-        *destination = *first;
+    using category = typename etl::iterator_traits<OutputIt>::iterator_category;
+    if constexpr (etl::is_base_of_v<etl::forward_iterator_tag, category>) {
+        // The last element written can be read back through the destination.
+        if (first != last) {
+            *destination = *first;
 
-        while (++first != last) {
-            if (not pred(*destination, *first)) {
-                *++destination = *first;
+            while (++first != last) {
+                if (not pred(*destination, *first)) {
+                    *++destination = *first;
+                }
+            }
+
+            ++destination;
+        }
+
+        return destination;
+    } else {
+        // Output iterators are write-only: keep a copy of the last element written.
+        if (first != last) {
+            auto value   = *first;
+            *destination = value;
+            ++destination;
+
+            while (++first != last) {
+                if (not pred(value, *first)) {
+                    value        = *first;
+                    *destination = value;
+                    ++destination;
+                }
             }
         }
 
-        ++destination;
+        return destination;
     }
-
-    return destination;
 }
 
 template <typename InputIt, typename OutputIt>
